@@ -12,6 +12,12 @@ CHECKS = {
    ref="§5 C13"),
 }
 
+CHECKS["C06"] = dict(level="model_checking", engine="E1-bfs",
+   technique="explicit-state breadth-first search to closure over a finite key/value domain on the real extension, differential oracle against a native WITHOUT ROWID table in the same SQLite connection",
+   text="All reachable states of (s3db table, native mirror) over a finite key domain (4-9 keys incl. a mixed-storage-class set) and value domain are enumerated to closure for every configuration (entries_per_node 2/3/4/4096 x node cache 0/100); every mutation statement is applied from every state and outcome class, affected-row count and full contents are compared; at every state a battery of ~400 SELECTs (all key comparison operators, two-sided/contradictory ranges, IN, BETWEEN, NULL operands, ORDER BY asc/desc/non-key, LIMIT, aggregates, joins) is compared on the live connection and on a fresh connection that re-opens the table from the bucket.",
+   note="Trusted: SQLite's native table as reference; strictly increasing logical write times; typeless columns. Values outside the finite domains are not covered.",
+   ref="§5 C06")
+
 NOT_YET = {}
 
 props = [json.loads(l) for l in open("properties.jsonl")]
